@@ -394,3 +394,190 @@ Theorem c01_empty_topic_example :
   RetainedBase.dl_logs (r_datalog exe_st1) = RetainedBase.dl_logs (r_datalog exe_st) /\
   dl_retained (r_datalog exe_st1) = [].
 Proof. exact empty_topic_witness. Qed.
+
+(** ---- whole runs (Router/TraceRun*.v): exactly once, in order, gap-free within retention, nothing
+    from before the SUBSCRIBE, complete at quiescence — for EVERY run from [init].
+    Ghost.  [run_d st0 ops = Ok (st, tr)] is the model's [run] with one more result, the delivery
+    trace [tr]; it is computed by instrumented copies of the model's own functions and erases to
+    [run] ([c01_run_ghost_erases]; every run has its trace: [c01_run_has_trace]).  An event
+    [(id, (k, f, i), e)]: connection key [id]; LINK number [k] — links are never reused, so [k]
+    identifies the connection between its Connect and its removal (keys [id] are recycled;
+    [c01_run_event_owner]: the events of a live connection's link carry its key) —; subscription
+    filter [f] (the SUBSCRIBE's path); filter log [i].  Only requests that are NOT shared
+    ([dr_group = None]) produce events:
+      [KSub e]    a SUBSCRIBE for a filter the connection did not hold was processed; [e] = the
+                  END of log [i] at that moment ([c01_run_sub_event]);
+      [KFwd off p] [forward_device_data] for that request appended [NForward (Some (_, off)) p _] to
+                  the connection's link buffer ([c01_run_fwd_event]; retained replays carry no
+                  cursor and are not events);
+      [KJump from to] a sweep started with a STALE cursor ([stale], the log rolled past it): it
+                  continues at the log's base [to], the entries [from, to) were evicted
+                  unforwarded — the "within retention" proviso ([c01_run_jump_event]).
+    [ktrace K tr] = the events of key K = (k, f, i) in order; [nxt]: where the request continues
+    after an event (forward off -> off + 1, jump -> to, subscribe -> e); [kchain]: every event
+    starts where the previous one continues ([ok_next]); [covered x l]: offset [x] is forwarded
+    in [l], or inside a jump of [l], or below a subscribe marker of [l].
+    Hypotheses of every theorem: valid configuration, max_outgoing_packet_count < 2^62, well-typed
+    ops (SUBSCRIBE QoS <= 2), fewer than 2^62 entries per filter log in the LAST state; for
+    completeness also max_outgoing_packet_count >= 1 and a quiescent final state.  NO hypothesis
+    on ops or oracles.  A session resumed on a new connection gets a new link, hence new keys:
+    nothing is claimed across connection epochs (C08 says what a resumption re-delivers).
+    Not covered here: that the filter log [i] of the key is the log of filter [f] (the request
+    shape [dl_findex f = i] is not an invariant yet), and the content of a forward (payload and
+    topic are the stored entry's: [c01_sweep_exact], per sweep). *)
+From Rumqtt Require Import Router.TraceRun Router.TraceRunThm Router.TraceRunExamples.
+From Rumqtt Require Import Router.Model Router.RunDefs.
+
+Theorem c01_run_ghost_erases : forall (ops : list (list oracle * rop)) (st : rstate),
+  drop2 (run_d st ops) = run st ops.
+Proof. exact run_erase. Qed.
+
+Theorem c01_run_step_ghost_erases : forall (st : rstate) (orc : list oracle) (o : rop),
+  drop3 (step_with_d st orc o) = step_with st orc o.
+Proof. exact step_with_erase. Qed.
+
+Theorem c01_run_has_trace : forall (ops : list (list oracle * rop)) (st st' : rstate),
+  run st ops = Ok st' -> exists tr, run_d st ops = Ok (st', tr).
+Proof. exact run_has_trace. Qed.
+
+(** the trace of every key is a chain *)
+Theorem c01_run_chain : forall (cfg : config) (st0 : rstate) (ops : list (list oracle * rop)) (st : rstate) (tr : list dev),
+  cfg_ok cfg -> cf_max_outgoing cfg < B62 -> init cfg = Ok st0 -> ops_wf ops ->
+  run_d st0 ops = Ok (st, tr) -> Bounded st ->
+  forall K : dkey, kchain (ktrace K tr).
+Proof. exact c01_run_chain_thm. Qed.
+
+(** (a) no duplicate, acceptance order: the offsets forwarded for a key increase strictly *)
+Theorem c01_run_no_dup_in_order : forall (cfg : config) (st0 : rstate) (ops : list (list oracle * rop)) (st : rstate) (tr : list dev),
+  cfg_ok cfg -> cf_max_outgoing cfg < B62 -> init cfg = Ok st0 -> ops_wf ops ->
+  run_d st0 ops = Ok (st, tr) -> Bounded st ->
+  forall (k : N) (f : str) (i : N),
+    increasing (fwd_offs (ktrace (k, f, i) tr)) /\ NoDup (fwd_offs (ktrace (k, f, i) tr)).
+Proof. exact c01_run_no_dup_in_order_thm. Qed.
+
+(** (b) gap-free: two forwards adjacent in a key's trace are consecutive offsets; every offset
+    strictly between two forwards of the key is accounted for by the events in between (a jump
+    over it: evicted before the sweep reached it; or a re-subscription above it) *)
+Theorem c01_run_gap_free : forall (cfg : config) (st0 : rstate) (ops : list (list oracle * rop)) (st : rstate) (tr : list dev),
+  cfg_ok cfg -> cf_max_outgoing cfg < B62 -> init cfg = Ok st0 -> ops_wf ops ->
+  run_d st0 ops = Ok (st, tr) -> Bounded st ->
+  forall (K : dkey) (l1 : list kev) (o1 : N) (p1 : publish) (mid : list kev) (o2 : N) (p2 : publish) (l2 : list kev),
+    ktrace K tr = l1 ++ KFwd o1 p1 :: mid ++ KFwd o2 p2 :: l2 ->
+    o1 < o2 /\ (mid = [] -> o2 = o1 + 1) /\ (forall x : N, o1 < x < o2 -> covered x mid).
+Proof. exact c01_run_gap_free_thm. Qed.
+
+(** (c) nothing from before the subscription: after [KSub e] every forward of the key is at or
+    above [e], and the next event is the forward of [e] itself, a jump from [e], or a later
+    re-subscription *)
+Theorem c01_run_starts_after_subscribe : forall (cfg : config) (st0 : rstate) (ops : list (list oracle * rop)) (st : rstate) (tr : list dev),
+  cfg_ok cfg -> cf_max_outgoing cfg < B62 -> init cfg = Ok st0 -> ops_wf ops ->
+  run_d st0 ops = Ok (st, tr) -> Bounded st ->
+  forall (K : dkey) (l1 : list kev) (e : N) (l2 : list kev),
+    ktrace K tr = l1 ++ KSub e :: l2 ->
+    (forall (off : N) (p : publish), In (KFwd off p) l2 -> e <= off) /\
+    (forall (b : kev) (l3 : list kev), l2 = b :: l3 ->
+       match b with KFwd off _ => off = e | KJump from to => from = e /\ e <= to | KSub e' => e <= e' end).
+Proof. exact c01_run_starts_after_subscribe_thm. Qed.
+
+(** (d) complete at quiescence: every live connection's every subscription has its one request
+    parked at the end of its log ([c01_complete_quiescent]); if it is not shared, every offset
+    from a subscribe marker of its key up to the end of the log is accounted for after the
+    marker: forwarded (once, by (a)), jumped over (evicted), or below a later re-subscription *)
+Theorem c01_run_complete : forall (cfg : config) (st0 : rstate) (ops : list (list oracle * rop)) (st : rstate) (tr : list dev),
+  cfg_ok cfg -> cf_max_outgoing cfg < B62 -> init cfg = Ok st0 -> ops_wf ops ->
+  run_d st0 ops = Ok (st, tr) -> Bounded st ->
+  1 <= cf_max_outgoing cfg -> quiescent st (owed_run st0 [] ops) ->
+  forall (id : N) (c : connection) (o : outgoing),
+    slab_get (r_conns st) id = Some c -> slab_get (r_obufs st) id = Some o ->
+  forall f : str, set_mem str_eqb f (c_subs c) = true ->
+  exists (i : N) (d : data) (rq : drequest),
+    nget (r_datalog st) i = Some d /\ In (id, rq) (d_waiters d) /\ dr_filter rq = f /\ dr_idx rq = i /\
+    (dr_group rq = None ->
+     snd (dr_cursor rq) = end_of (d_log d) /\
+     forall (l1 : list kev) (e : N) (l2 : list kev), ktrace (o_link o, f, i) tr = l1 ++ KSub e :: l2 ->
+       forall x : N, e <= x < end_of (d_log d) -> covered x l2).
+Proof. exact c01_run_complete_thm. Qed.
+
+Theorem c01_run_covered_no_resubscribe : forall (x : N) (l : list kev),
+  no_sub l -> covered x l ->
+  (exists p : publish, In (KFwd x p) l) \/ (exists from to : N, In (KJump from to) l /\ from <= x < to).
+Proof. exact covered_no_sub. Qed.
+
+Theorem c01_run_event_owner : forall (cfg : config) (st0 : rstate) (ops : list (list oracle * rop)) (st : rstate) (tr : list dev),
+  cfg_ok cfg -> cf_max_outgoing cfg < B62 -> init cfg = Ok st0 -> ops_wf ops ->
+  run_d st0 ops = Ok (st, tr) -> Bounded st ->
+  forall (id k : N) (f : str) (i : N) (a : kev) (c : N) (o : outgoing),
+    In (id, (k, f, i), a) tr -> slab_get (r_obufs st) c = Some o -> o_link o = k -> id = c.
+Proof. exact c01_run_event_owner_thm. Qed.
+
+Theorem c01_run_event_in_log : forall (cfg : config) (st0 : rstate) (ops : list (list oracle * rop)) (st : rstate) (tr : list dev),
+  cfg_ok cfg -> cf_max_outgoing cfg < B62 -> init cfg = Ok st0 -> ops_wf ops ->
+  run_d st0 ops = Ok (st, tr) -> Bounded st ->
+  forall (id k : N) (f : str) (i : N) (a : kev),
+    In (id, (k, f, i), a) tr -> exists d : data, nget (r_datalog st) i = Some d /\ nxt a <= end_of (d_log d).
+Proof. exact c01_run_event_in_log_thm. Qed.
+
+(** what the events of one sweep / one SUBSCRIBE are *)
+Theorem c01_run_fwd_event : forall (st : rstate) (id : N) (rq : drequest) (st' : rstate) (cs : consume_status)
+    (id' : N) (K : dkey) (off : N) (p : publish),
+  In (id', K, KFwd off p) (fdd_ghost st id rq st' cs) ->
+  dr_group rq = None /\ id' = id /\
+  exists o : outgoing, slab_get (r_obufs st) id = Some o /\ K = (o_link o, dr_filter rq, dr_idx rq) /\
+    exists (seg : N) (pr : option pprops),
+      In (NForward (Some (seg, off)) p pr) (skipn (length (out_of st (o_link o))) (out_of st' (o_link o))).
+Proof. exact fdd_ghost_fwd. Qed.
+
+Theorem c01_run_jump_event : forall (st : rstate) (id : N) (rq : drequest) (st' : rstate) (cs : consume_status)
+    (id' : N) (K : dkey) (from to : N),
+  In (id', K, KJump from to) (fdd_ghost st id rq st' cs) ->
+  dr_group rq = None /\ cs <> SInflightFull /\
+  exists d : data, nget (r_datalog st) (dr_idx rq) = Some d /\ stale (d_log d) (dr_cursor rq) = true /\
+                   from = snd (dr_cursor rq) /\ to = base_of (d_log d).
+Proof. exact fdd_ghost_jump. Qed.
+
+Theorem c01_run_sub_event : forall (st : rstate) (f : str) (st1 : rstate) (idx : N) (cu : cursor) (id : N) (path : str)
+    (grp : option str) (id' : N) (K : dkey) (a : kev),
+  CInv st -> next_native_offset st f = Ok (st1, idx, cu) ->
+  In (id', K, a) (pf_ghost st1 id cu idx path grp) ->
+  grp = None /\ id' = id /\
+  exists (conn : connection) (o : outgoing) (d : data),
+    slab_get (r_conns st1) id = Some conn /\ set_mem str_eqb path (c_subs conn) = false /\
+    slab_get (r_obufs st1) id = Some o /\ K = (o_link o, path, idx) /\
+    nget (r_datalog st1) idx = Some d /\ a = KSub (end_of (d_log d)).
+Proof. exact pf_ghost_sub. Qed.
+
+(** the hypotheses are met by a concrete run (Router/TraceRunExamples.v): subscribers a (QoS 1,
+    link 0) and b (QoS 0, link 1) on "t"; 103 publishes — a gets 100 and is paused by its full
+    window —; 12 large publishes roll the two-segment log past both cursors (base 109); then
+    both are swept from stale cursors (jumps 100->109 and 103->109), all is acknowledged and
+    drained: quiescent.  [kshort]: (0, off, 0) forward, (1, from, to) jump, (2, e, 0) subscribe. *)
+Theorem c01_run_example_paused :
+  let st := tx_st tx_ops_mid in let tr := tx_tr tx_ops_mid in
+  tx_run tx_ops_mid = Ok (st, tr) /\
+  (exists st0, cfg_ok tx_cfg /\ cf_max_outgoing tx_cfg < B62 /\ init tx_cfg = Ok st0 /\ ops_wf tx_ops_mid /\
+               run_d st0 tx_ops_mid = Ok (st, tr) /\ Bounded st) /\
+  exists (t : tracker) (o : outgoing) (d : data),
+    slab_get (r_trackers st) 0 = Some t /\ slab_get (r_obufs st) 0 = Some o /\ nget (r_datalog st) 0 = Some d /\
+    tr_status t = Paused InflightFull /\ lenN (o_inflight o) = 100 /\ map dr_cursor (tr_reqs t) = [(0, 100)] /\
+    base_of (d_log d) = 109 /\ end_of (d_log d) = 115 /\ stale (d_log d) (0, 100) = true /\
+    map kshort (ktrace (0, [116], 0) tr) = (2, 0, 0) :: fwds 0 100 /\
+    map kshort (ktrace (1, [116], 0) tr) = (2, 0, 0) :: fwds 0 103.
+Proof. exact trace_run_mid. Qed.
+
+Theorem c01_run_example_quiescent :
+  let st := tx_st tx_ops in let tr := tx_tr tx_ops in
+  tx_run tx_ops = Ok (st, tr) /\
+  exists st0,
+    (cfg_ok tx_cfg /\ cf_max_outgoing tx_cfg < B62 /\ init tx_cfg = Ok st0 /\ ops_wf tx_ops /\
+     run_d st0 tx_ops = Ok (st, tr) /\ Bounded st) /\
+    1 <= cf_max_outgoing tx_cfg /\ quiescent st (owed_run st0 [] tx_ops) /\
+    map kshort (ktrace (0, [116], 0) tr) = (2, 0, 0) :: fwds 0 100 ++ (1, 100, 109) :: fwds 109 6 /\
+    map kshort (ktrace (1, [116], 0) tr) = (2, 0, 0) :: fwds 0 103 ++ (1, 103, 109) :: fwds 109 6 /\
+    lenN tr = 219 /\
+    exists (ca cb : connection) (d : data),
+      slab_get (r_conns st) 0 = Some ca /\ c_subs ca = [[116]] /\
+      slab_get (r_conns st) 1 = Some cb /\ c_subs cb = [[116]] /\
+      nget (r_datalog st) 0 = Some d /\ base_of (d_log d) = 109 /\ end_of (d_log d) = 115 /\
+      map (fun w : N * drequest => (fst w, dr_cursor (snd w), dr_group (snd w))) (d_waiters d)
+        = [(1, (3, 115), None); (0, (3, 115), None)].
+Proof. exact trace_run_quiescent. Qed.
